@@ -249,7 +249,7 @@ let () =
            fail "pure" (Printf.sprintf "f%d x=%d returned %d but the function's value is %d" f x enc_v (int_of_n (enc body)));
          let this_inst = List.find_opt (fun wi -> wi.wf = f && wi.wtid = itid) instances in
          let stored_after = (match this_inst with Some wi -> List.assoc_opt x wi.wstore | None -> None) in
-         let okb = (ok = "ok") and cifb = (cif = "1") and invb = (inv = "1") in
+         let okb = (ok = "ok") and cifb = (cif = "1") and invb = (inv = "1" || inv = "2") in
          if field "panic" = None then begin
            if has "once" && is_plain fn && not !inval_seen then begin
              let first = not (Hashtbl.mem seen_calls (f, x, itid)) || (exec > 0 && Hashtbl.find seen_calls (f, x, itid) = exec) in
@@ -490,7 +490,7 @@ let () =
          let cands = if fn.w.w_cfg.pol = Random && List.length removed <= 5 then perms removed
            else if scored && List.length removed <= 5 then [] :: perms removed else [[]] in
          let run ch =
-           let ci = { ci_key = n_of_int x; ci_body = body; ci_size = n_of_int size; ci_inv = inv = "1"; ci_cif = cif = "1";
+           let ci = { ci_key = n_of_int x; ci_body = body; ci_size = n_of_int size; ci_inv = (inv = "1" || inv = "2"); ci_cif = cif = "1";
                       ci_ch = List.map n_of_int ch } in
            world_call !world (nat_of_int widx) now ci in
          let matches_impl (w', _) =
@@ -522,7 +522,7 @@ let () =
          let field name = List.find_map (fun s -> let p = name ^ "=" in
                                           if String.length s > String.length p && String.sub s 0 (String.length p) = p
                                           then Some (String.sub s (String.length p) (String.length s - String.length p)) else None) rl in
-         let ci = { ci_key = n_of_int x; ci_body = body; ci_size = N0; ci_inv = inv = "1"; ci_cif = cif = "1"; ci_ch = [] } in
+         let ci = { ci_key = n_of_int x; ci_body = body; ci_size = N0; ci_inv = (inv = "1" || inv = "2"); ci_cif = cif = "1"; ci_ch = [] } in
          ignore fn;
          let (w', res) = world_lookup !world (nat_of_int widx) now ci in
          set_world w';
@@ -618,6 +618,14 @@ let () =
                     let okb = (match ci.ci_body with ROk _ -> true | RErr _ -> false) in
                     let fits = (match fn.w.w_cfg.maxmem with None -> true | Some m -> size <= int_of_n m) in
                     let gone = List.filter (fun (k, _) -> k <> x && not (List.mem_assoc k wi.wstore)) p.wstore in
+                    (match fn.w.w_cfg.maxmem with
+                     | Some m when List.mem_assoc x p.wstore && gone <> [] && fits ->
+                       let sz (k, (v, _, _)) = (try Hashtbl.find entry_sizes (f, k, v) with Not_found -> 0) in
+                       let others = List.fold_left (fun acc e -> acc + sz e) 0 (List.filter (fun (k, _) -> k <> x) p.wstore) in
+                       if others + size <= int_of_n m && (match fn.w.w_cfg.limit with Some l -> List.length p.wstore <= int_of_n l | None -> true) then
+                         fail "c20" (Printf.sprintf "f%d x=%d: the resumed call only replaced the entry of its key and everything fits (%d + %d <= %d), yet %d other entries were evicted"
+                                       f x others size (int_of_n m) (List.length gone))
+                     | _ -> ());
                     if List.mem_assoc x p.wstore && fn.w.w_cfg.maxmem = None && gone <> [] then
                       fail "c20" (Printf.sprintf "f%d x=%d: the resumed call only replaced the entry of its key, yet %d other entries were evicted" f x (List.length gone));
                     if List.sort compare wi.wq <> List.sort compare (List.map fst wi.wstore) then
